@@ -153,30 +153,30 @@ PROPS = {
             "obs": None, "special": special_c15, "note": "Partial by nature: a pure model cannot exhibit hidden state; the history / fresh-process comparison and the mutation check are testing of the Go functions."},
     "C16": {"modules": ["QrA"], "claim": "Concurrency: the logic that makes concurrent use safe is modelled and proved (mutex-guarded cache whose result is history-free => serialisable; producer/consumer protocols of the channel pipelines always drain), with generated facts as preconditions; schedules, the race detector and goroutine leaks are exercised by running mixed workloads from 2-64 goroutines with GOMAXPROCS 1-16 as the first calls of fresh processes.",
             "obs": None, "special": special_c16, "note": "Partial by nature: the Go scheduler and memory model are not modelled; races and leaks are searched by execution (-race), not proved absent."},
-    "C09": {"claim": "Model of scaledbarcode.go (Scale, ScaleWithFill, both scalers, the wrapper's accessors) with the theorem that the result is the integer, centred enlargement or an error; tied by correspondence on exhaustive (width, height) windows of small sources of every family, chains, fills; judged pixel by pixel by the property's own formula.",
+    "C09": {"modules": ["PureQr", "PureDm", "PureAztec", "PurePdf", "Pure1D"], "claim": "Model of scaledbarcode.go (Scale, ScaleWithFill, both scalers, the wrapper's accessors) with the theorem that the result is the integer, centred enlargement or an error; tied by correspondence on exhaustive (width, height) windows of small sources of every family, chains, fills; judged pixel by pixel by the property's own formula.",
             "obs": None, "aux": scale_inner, "exhaustive_note": "every (w, h) in [1, 3*size+3]^2 for the small 1-D sources and small matrix symbols whose window fits the budget"},
-    "C10": {"modules": ["QrA", "PdfA", "DmA", "AztecA", "C05", "C06", "C07", "C08", "GenQr", "GenDm", "GenAztec", "GenPdf", "GenUtils"], "claim": 'Acceptance is proved in Lean per entry point as `accepted iff representable` and `never panics` for all eleven families (C05_accepts_iff, C06_accept, C07_*_accepts, C08_*_accept, QrA.encode*_accepts_iff + encodeWithColor_no_panic, DmA.accepted_iff, PdfA.C04_encode_cases + C10_never_panics, AztecA.AztecA_explicit_iff + C10_aztec_*); termination is by construction (structural recursion or fuel proved sufficient where it matters). Tied to /repo by correspondence on every single byte / boundary rune / boundary length / parameter sweep; the oracle states representability from the standards (alphabet, length, parity, check digit, ISO capacity) and flags any panic, hang or inconsistent return. For Aztec and PDF417 capacity the oracle decides one direction only (content that certainly fits must be accepted).',
+    "C10": {"modules": ["QrA", "PdfA", "DmA", "AztecA", "C05", "C06", "C07", "C08", "GenQr", "GenDm", "GenAztec", "GenPdf", "GenUtils", "PureQr", "PureDm", "PureAztec", "PurePdf", "Pure1D"], "claim": 'Acceptance is proved in Lean per entry point as `accepted iff representable` and `never panics` for all eleven families (C05_accepts_iff, C06_accept, C07_*_accepts, C08_*_accept, QrA.encode*_accepts_iff + encodeWithColor_no_panic, DmA.accepted_iff, PdfA.C04_encode_cases + C10_never_panics, AztecA.AztecA_explicit_iff + C10_aztec_*); termination is by construction (structural recursion or fuel proved sufficient where it matters). Tied to /repo by correspondence on every single byte / boundary rune / boundary length / parameter sweep; the oracle states representability from the standards (alphabet, length, parity, check digit, ISO capacity) and flags any panic, hang or inconsistent return. For Aztec and PDF417 capacity the oracle decides one direction only (content that certainly fits must be accepted).',
             "obs": ["ok", "rej"], "exhaustive_note": "every single byte value and 15 boundary runes as one-character content for every entry point; level bytes 0..255; layer requests -40..40"},
-    "C11": {"claim": "Proved in Lean for all eleven families and every constructor path (BV/Props/C11): acceptance, bounds, metadata, content, checksum and module pattern do not depend on the colour scheme; the scheme in force is the caller's (plain Encode = ColorScheme16); only the two scheme colours occur; standard sizes. Tied to /repo by correspondence over schemes in Gray, Gray16, RGBA, NRGBA, CMYK, RGBA64 incl. equal and type-mixed colours, and judged per pixel by the oracle.",
+    "C11": {"modules": ["PureQr", "PureDm", "PureAztec", "PurePdf", "Pure1D"], "claim": "Proved in Lean for all eleven families and every constructor path (BV/Props/C11): acceptance, bounds, metadata, content, checksum and module pattern do not depend on the colour scheme; the scheme in force is the caller's (plain Encode = ColorScheme16); only the two scheme colours occur; standard sizes. Tied to /repo by correspondence over schemes in Gray, Gray16, RGBA, NRGBA, CMYK, RGBA64 incl. equal and type-mixed colours, and judged per pixel by the oracle.",
             "obs": None, "aux": plain_op},
-    "C12": {"modules": ["QrA", "PdfA", "DmA", "AztecA", "GenQr", "GenDm", "GenAztec", "GenPdf"], "claim": "Proved in Lean: the decoded Info of the round-trip theorems carries the requested level / counts — QR: format word names the level and the blocks follow the ISO table (C01_qr, QrA); PDF417: both indicators name the level and 2^(level+1) valid check words (PdfA); DataMatrix: ECC 200 counts of the chosen size (C02, DmA.table_certificates); Aztec: check bits x 100 >= percentage x data bits (AztecA.C12_aztec). The implementation's pictures are read back by the reference decoders and compared with the request.",
+    "C12": {"modules": ["QrA", "PdfA", "DmA", "AztecA", "GenQr", "GenDm", "GenAztec", "GenPdf", "PureQr", "PureDm", "PureAztec", "PurePdf"], "claim": "Proved in Lean: the decoded Info of the round-trip theorems carries the requested level / counts — QR: format word names the level and the blocks follow the ISO table (C01_qr, QrA); PDF417: both indicators name the level and 2^(level+1) valid check words (PdfA); DataMatrix: ECC 200 counts of the chosen size (C02, DmA.table_certificates); Aztec: check bits x 100 >= percentage x data bits (AztecA.C12_aztec). The implementation's pictures are read back by the reference decoders and compared with the request.",
             "obs": None},
-    "C13": {"modules": ["QrA", "PdfA", "DmA", "AztecA", "GenQr", "GenDm", "GenAztec", "GenPdf"], "claim": 'Proved in Lean: QR first fit over a table proved sorted (QrA.findSmallest_minimal) and Auto = first success of numeric, alphanumeric, byte; DataMatrix first fit (DmA.size_choice); PDF417 rows = ceil, padding < columns, within 2..30 (PdfA.C13_dimensions); Aztec: every physically smaller explicit request is rejected (AztecA.C13_aztec). The oracle recomputes minimal sizes from the ISO capacity tables / by explicit smaller requests on the implementation.',
+    "C13": {"modules": ["QrA", "PdfA", "DmA", "AztecA", "GenQr", "GenDm", "GenAztec", "GenPdf", "PureQr", "PureDm", "PureAztec", "PurePdf"], "claim": 'Proved in Lean: QR first fit over a table proved sorted (QrA.findSmallest_minimal) and Auto = first success of numeric, alphanumeric, byte; DataMatrix first fit (DmA.size_choice); PDF417 rows = ceil, padding < columns, within 2..30 (PdfA.C13_dimensions); Aztec: every physically smaller explicit request is rejected (AztecA.C13_aztec). The oracle recomputes minimal sizes from the ISO capacity tables / by explicit smaller requests on the implementation.',
             "obs": ["w", "h", "auto", "smaller_ok"]},
-    "C14": {"modules": ["C05", "C06", "C07", "GenUtils"], "claim": "CheckSum() against the check value decoded from the drawn symbol (EAN last digit = GS1 check, Code 128 check character, Code 39 modulo-43 value) and its invariance under 0-3 rounds of Scale.",
+    "C14": {"modules": ["C05", "C06", "C07", "GenUtils", "Pure1D"], "claim": "CheckSum() against the check value decoded from the drawn symbol (EAN last digit = GS1 check, Code 128 check character, Code 39 modulo-43 value) and its invariance under 0-3 rounds of Scale.",
             "obs": ["cs"], "aux": base_op},
-    "C01": {"modules": ["QrA", "QrB", "GenQr"], "claim": "Proved in Lean for all inputs (theorem C01_qr): whenever the model of the qr package returns a barcode, the ISO/IEC 18004 reference decoder accepts its picture (function patterns, both format/version copies BCH-valid, every RS block valid, terminator/pads/remainder) and returns exactly the content, the requested level and the chosen version, for whichever of the eight masks is selected. The model is tied to /repo on every run: tables regenerated by the translator (block table, format/version words, character set, field), control flow by a differential correspondence check over every version x level x mode capacity boundary; the same reference decoder also judges the implementation's own pictures.",
+    "C01": {"modules": ["QrA", "QrB", "GenQr", "PureQr"], "claim": "Proved in Lean for all inputs (theorem C01_qr): whenever the model of the qr package returns a barcode, the ISO/IEC 18004 reference decoder accepts its picture (function patterns, both format/version copies BCH-valid, every RS block valid, terminator/pads/remainder) and returns exactly the content, the requested level and the chosen version, for whichever of the eight masks is selected. The model is tied to /repo on every run: tables regenerated by the translator (block table, format/version words, character set, field), control flow by a differential correspondence check over every version x level x mode capacity boundary; the same reference decoder also judges the implementation's own pictures.",
             "obs": None, "exhaustive_note": "quick: capacity-1/capacity/capacity+1 for every (level, mode) of versions 1-10 and a rotating pair for 11-40; thorough: all 160 x 3 x 3 boundary cases"},
-    "C02": {"modules": ["DmA", "C17", "GenDm"], "claim": 'Proved in Lean for all inputs (theorem C02_datamatrix): every content whose ASCII encodation has at most 1558 codewords is accepted (iff), placed in the smallest of the 24 sizes, and the ISO/IEC 16022 reference decoder (finder/clock tracks per region, Annex F placement, interleaved RS blocks, 253-state pads) returns the content; placement via a data-independence lemma plus 24 kernel certificates; RS from C17. Tied to /repo by regenerated size table and correspondence on every size and capacity boundary.',
+    "C02": {"modules": ["DmA", "C17", "GenDm", "PureDm"], "claim": 'Proved in Lean for all inputs (theorem C02_datamatrix): every content whose ASCII encodation has at most 1558 codewords is accepted (iff), placed in the smallest of the 24 sizes, and the ISO/IEC 16022 reference decoder (finder/clock tracks per region, Annex F placement, interleaved RS blocks, 253-state pads) returns the content; placement via a data-independence lemma plus 24 kernel certificates; RS from C17. Tied to /repo by regenerated size table and correspondence on every size and capacity boundary.',
             "obs": None, "exhaustive_note": "all 24 sizes at capacity-1/capacity/capacity+1 in several content classes"},
-    "C03": {"modules": ["AztecA", "GenAztec"], "claim": 'Proved in Lean for all inputs (theorem AztecA.C03_aztec, payloads shorter than 2^58 bytes, percentage >= 0): whatever the model of the aztec package returns, the ISO/IEC 24778 reference decoder accepts the picture (bullseye, orientation marks, RS-valid mode message agreeing with the size, complete reference grid, RS-valid data words with no all-0/all-1 word) and returns exactly the payload; explicit layer requests are honoured exactly; check bits >= requested percentage; every physically smaller explicit request is refused (C13). Built from a search invariant for the high-level encoder (any state of the list parses back), stuffing, layer choice, RS via C17, and 36 per-shape geometry certificates. Tied to /repo by regenerated tables and correspondence over all 36 shapes, 37 layer requests, percentages and capacity boundaries.',
+    "C03": {"modules": ["AztecA", "GenAztec", "PureAztec"], "claim": 'Proved in Lean for all inputs (theorem AztecA.C03_aztec, payloads shorter than 2^58 bytes, percentage >= 0): whatever the model of the aztec package returns, the ISO/IEC 24778 reference decoder accepts the picture (bullseye, orientation marks, RS-valid mode message agreeing with the size, complete reference grid, RS-valid data words with no all-0/all-1 word) and returns exactly the payload; explicit layer requests are honoured exactly; check bits >= requested percentage; every physically smaller explicit request is refused (C13). Built from a search invariant for the high-level encoder (any state of the list parses back), stuffing, layer choice, RS via C17, and 36 per-shape geometry certificates. Tied to /repo by regenerated tables and correspondence over all 36 shapes, 37 layer requests, percentages and capacity boundaries.',
             "obs": None, "exhaustive_note": "all 36 symbol shapes and all 37 layer requests; capacity-1/capacity/capacity+1 for every (percentage, layers) group"},
-    "C04": {"modules": ["PdfA", "GenPdf", "GenUtils"], "claim": 'Proved in Lean for all inputs (theorem PdfA.C04_encode_decode): whatever the model of the pdf417 package returns, the ISO/IEC 15438 reference decoder returns exactly rows, columns, level, length descriptor, padding (< one row), 2^(level+1) check words and the data; the LFSR is polynomial division over ZMod 929 (Mathlib), generator polynomials certified for the nine levels, indicators = ISO formulas, compaction round trips incl. segmentation. The 3x929 pattern order is a frozen snapshot (DESIGN 1.1). Tied to /repo by regenerated tables and correspondence incl. every total codeword count.',
+    "C04": {"modules": ["PdfA", "GenPdf", "GenUtils", "PurePdf"], "claim": 'Proved in Lean for all inputs (theorem PdfA.C04_encode_decode): whatever the model of the pdf417 package returns, the ISO/IEC 15438 reference decoder returns exactly rows, columns, level, length descriptor, padding (< one row), 2^(level+1) check words and the data; the LFSR is polynomial division over ZMod 929 (Mathlib), generator polynomials certified for the nine levels, indicators = ISO formulas, compaction round trips incl. segmentation. The 3x929 pattern order is a frozen snapshot (DESIGN 1.1). Tied to /repo by regenerated tables and correspondence incl. every total codeword count.',
             "obs": None, "exhaustive_note": "every total codeword count 3..905, i.e. all 104 reachable (rows, cols) shapes"},
-    "C05": {"claim": "Proved in Lean for all inputs (C05_symbols, C05_roundtrip, C05_accepts_iff): the code-set chooser's output is interpreted back to the content by the ISO/IEC 15417 state machine, both checksum variants decode bit-exactly, acceptance iff 1..80 runes of the alphabet. Tied to /repo by the regenerated pattern table and constants and by correspondence (exhaustive lengths 1-2 over 132 symbols, structured transitions).", "obs": None, "exhaustive_note": "all strings of length 1..2 over the 132-symbol alphabet, both checksum variants"},
-    "C06": {"modules": ["GenUtils"], "claim": 'Proved in Lean for all byte strings (C06_accept, C06_roundtrip, C06_guards): acceptance iff, completed number, 67/95 modules, guards, decode through L/G/R and parity, kind. Tied by regenerated table + correspondence covering every (first digit, position, digit) cell and malformed inputs.', "obs": None, "exhaustive_note": "every (first digit, position, digit) cell for 7- and 12-digit bodies"},
-    "C07": {"claim": 'Proved in Lean for all texts and the four option mixes (C07_code39_*, C07_code93_*): acceptance iff alphabet, reference decode returns the text, check characters (mod 43; C/K mod 47 with wrapping weights), full-ASCII pairs resolved. Tied by regenerated tables + correspondence (exhaustive lengths 0-2 over ASCII x 4 option mixes).', "obs": None, "exhaustive_note": "all strings of length 0..2 over ASCII 0..127 x 4 option mixes, both symbologies"},
-    "C17": {"claim": 'Proved in Lean for the six fields found at the NewGaloisField call sites (BV/Props/C17): primitivity certificates (O(n) bitmask walk with soundness proof) give the field laws, in-range table indices, distributivity and agreement with an independent shift-and-reduce multiplication; polynomial division law; Reed-Solomon output valid at the required roots, unique, and independent of the cache history. Tied to /repo by the call-site obligation and by correspondence (all operand pairs of the small fields in quick, of every field in thorough; shared-encoder request histories).', "obs": None, "exhaustive_note": "quick: all operand pairs of GF(16), GF(64), GF(256)/285, GF(256)/301 for Multiply/Divide/Invers, sampled rows of GF(1024), GF(4096); thorough: all pairs of every field; every check-symbol count 1..min(n-1,600) in ascending and descending request order on shared encoders"},
-    "C18": {"claim": 'Proved in Lean (BV/Props/C18): the BitList model (BitVec 32 words, growth) refines an append-only bit sequence over every operation history; both byte views equal the packed sequence. Tied to /repo by correspondence on exhaustive short scripts and long random scripts across word and growth boundaries.', "obs": None, "exhaustive_note": "every script of <= 4 (quick) / 5 (thorough) operations over an 8-operation alphabet from 7 initial lists"},
-    "C08": {"modules": ["GenUtils"], "claim": 'Proved in Lean for all inputs (C08_codabar_*, C08_tof_*, C08_addCheckSum): acceptance = the anchored pattern (the ReplaceAllString idiom proved equivalent), run-length reference decoders return the text, the check digit completes the 3-1 sum to a multiple of ten. Tied by regenerated tables + correspondence (exhaustive short strings).', "obs": None, "exhaustive_note": "Codabar: all strings of length <= 4 (quick) / 5 (thorough) over 20 characters + 3 noise characters; 2 of 5 and AddCheckSum: all digit strings of length <= 5 (quick) / 6 (thorough)"},
+    "C05": {"modules": ["Pure1D"], "claim": "Proved in Lean for all inputs (C05_symbols, C05_roundtrip, C05_accepts_iff): the code-set chooser's output is interpreted back to the content by the ISO/IEC 15417 state machine, both checksum variants decode bit-exactly, acceptance iff 1..80 runes of the alphabet. Tied to /repo by the regenerated pattern table and constants and by correspondence (exhaustive lengths 1-2 over 132 symbols, structured transitions).", "obs": None, "exhaustive_note": "all strings of length 1..2 over the 132-symbol alphabet, both checksum variants"},
+    "C06": {"modules": ["GenUtils", "Pure1D"], "claim": 'Proved in Lean for all byte strings (C06_accept, C06_roundtrip, C06_guards): acceptance iff, completed number, 67/95 modules, guards, decode through L/G/R and parity, kind. Tied by regenerated table + correspondence covering every (first digit, position, digit) cell and malformed inputs.', "obs": None, "exhaustive_note": "every (first digit, position, digit) cell for 7- and 12-digit bodies"},
+    "C07": {"modules": ["Pure1D"], "claim": 'Proved in Lean for all texts and the four option mixes (C07_code39_*, C07_code93_*): acceptance iff alphabet, reference decode returns the text, check characters (mod 43; C/K mod 47 with wrapping weights), full-ASCII pairs resolved. Tied by regenerated tables + correspondence (exhaustive lengths 0-2 over ASCII x 4 option mixes).', "obs": None, "exhaustive_note": "all strings of length 0..2 over ASCII 0..127 x 4 option mixes, both symbologies"},
+    "C17": {"modules": ["PureUtils"], "claim": 'Proved in Lean for the six fields found at the NewGaloisField call sites (BV/Props/C17): primitivity certificates (O(n) bitmask walk with soundness proof) give the field laws, in-range table indices, distributivity and agreement with an independent shift-and-reduce multiplication; polynomial division law; Reed-Solomon output valid at the required roots, unique, and independent of the cache history. Tied to /repo by the call-site obligation and by correspondence (all operand pairs of the small fields in quick, of every field in thorough; shared-encoder request histories).', "obs": None, "exhaustive_note": "quick: all operand pairs of GF(16), GF(64), GF(256)/285, GF(256)/301 for Multiply/Divide/Invers, sampled rows of GF(1024), GF(4096); thorough: all pairs of every field; every check-symbol count 1..min(n-1,600) in ascending and descending request order on shared encoders"},
+    "C18": {"modules": ["PureUtils"], "claim": 'Proved in Lean (BV/Props/C18): the BitList model (BitVec 32 words, growth) refines an append-only bit sequence over every operation history; both byte views equal the packed sequence. Tied to /repo by correspondence on exhaustive short scripts and long random scripts across word and growth boundaries.', "obs": None, "exhaustive_note": "every script of <= 4 (quick) / 5 (thorough) operations over an 8-operation alphabet from 7 initial lists"},
+    "C08": {"modules": ["GenUtils", "Pure1D"], "claim": 'Proved in Lean for all inputs (C08_codabar_*, C08_tof_*, C08_addCheckSum): acceptance = the anchored pattern (the ReplaceAllString idiom proved equivalent), run-length reference decoders return the text, the check digit completes the 3-1 sum to a multiple of ten. Tied by regenerated tables + correspondence (exhaustive short strings).', "obs": None, "exhaustive_note": "Codabar: all strings of length <= 4 (quick) / 5 (thorough) over 20 characters + 3 noise characters; 2 of 5 and AddCheckSum: all digit strings of length <= 5 (quick) / 6 (thorough)"},
 }
